@@ -211,6 +211,7 @@ def check(ctx: Ctx) -> None:
             ctx.ob("C12.cer", f"{cname.rsplit('.', 1)[-1]}:{key}", ok,
                    f"{cname.rsplit('.', 1)[-1]}.{meth}({key!r}) with this call's content evaluation result gives {outs}; it must return that result's own entry for the key"
                    f"{'' if present else ' (absent key: NotImplementedError for constraints, None for hints/packages)'}", file=cls_.file, line=fn_.node.lineno, function=fn_.qualname)
+    shipped_rule(ctx, "C12.shipped", ("rc", "fc", "hint", "pkg"))
     # ---- C12.evaluators: any mix of sync/async per-key methods, both schedules
     base = {}
     results = mixed_evaluator_results(model)
@@ -293,3 +294,58 @@ def check(ctx: Ctx) -> None:
     ctx.soft(lambda: check_models_and_transformers(ctx, "C12.state", "evaluation must not depend on earlier evaluations"))
     ctx.assume("L5 (gather: argument order, own task/context copy per coroutine), L6 (inject.params resolves the provider at call time in the calling task)")
     ctx.assume("user-supplied evaluators that share state among themselves are outside the property")
+
+
+def shipped_rule(ctx: Ctx, rule_id: str, kinds) -> None:
+    """The shipped dictionary based evaluators / providers / resolvers answer with the entry of the very key asked for."""
+    from ..fdvalues import Opaque
+
+    model = ctx.model
+    NODES = "ahbicht.models.condition_nodes"
+    # ---- C12.shipped: the dictionary based evaluators / providers / resolvers answer with the entry of the very key asked for
+    shipped = [
+        ("ahbicht.content_evaluation.rc_evaluators.DictBasedRcEvaluator", "evaluate_single_condition", "_results", "rc"),
+        ("ahbicht.content_evaluation.fc_evaluators.DictBasedFcEvaluator", "evaluate_single_format_constraint", "_results", "fc"),
+        ("ahbicht.expressions.hints_provider.DictBasedHintsProvider", "get_hint_text", "_all_hints", "hint"),
+        ("ahbicht.expressions.package_expansion.DictBasedPackageResolver", "get_condition_expression", "_all_packages", "pkg"),
+    ]
+    for cname, meth, attr, kind in shipped:
+        if kind not in kinds:
+            continue
+        cls_ = model.cls(cname)
+        fn_ = model.find_method(cls_, meth)
+        init_ = model.find_method(cls_, "__init__")
+        if fn_ is None or init_ is None:
+            ctx.note(f"{cname}.{meth} not found - C12.shipped skipped for it")
+            continue
+        keys = {"rc": ["1", "2", "7"], "fc": ["901", "932", "7"], "hint": ["501", "502", "7"], "pkg": ["7P", "007P", "10P", "9P"]}[kind]
+        for key in keys:
+            def run(ch, cname=cname, meth=meth, kind=kind, key=key, attr=attr):
+                it = Interp(model, ch)
+                table = {
+                    "rc": {"1": it.enum(CFV_, "FULFILLED"), "2": it.enum(CFV_, "UNKNOWN")},
+                    "fc": {"901": Obj(f"{NODES}.EvaluatedFormatConstraint", {"format_constraint_fulfilled": True, "error_message": None}),
+                           "932": Obj(f"{NODES}.EvaluatedFormatConstraint", {"format_constraint_fulfilled": False, "error_message": "no"})},
+                    "hint": {"501": "hint 501", "502": ""},
+                    "pkg": {"7P": "[1] U [2]", "10P": None},
+                }[kind]
+                self_obj = Obj(cname, {attr: table, "logger": Opaque("logger", kind="logging.Logger", truthy=True), "_evaluation_methods": {},
+                                       "edifact_format": Opaque("fmt", truthy=True)})
+                args_ = [key] + ([Opaque_data()] if kind == "rc" else [])
+                try:
+                    res = it.await_(it.call(it.getattr(self_obj, meth, None, None), args_, {}, None, None), None, None)
+                except PyRaise as err:
+                    return ("raise", err.exc.cls)
+                want = table.get(key)
+                if isinstance(res, Obj) and res.cls.endswith("PackageKeyConditionExpressionMapping"):
+                    return ("ret", res.fields.get("package_expression") == want and res.fields.get("package_key") == key)
+                return ("ret", res is want or (isinstance(want, str) and res == want) or (want is None and res is None))
+
+            outs = sorted({o for _, o in explore(run)}, key=repr)
+            ctx.count()
+            present = key in {"rc": ("1", "2"), "fc": ("901", "932"), "hint": ("501", "502"), "pkg": ("7P", "10P")}[kind]
+            ok = outs == [("ret", True)] if (present or kind in ("hint", "pkg")) else outs == [("raise", "builtins.NotImplementedError")]
+            ctx.ob(rule_id, f"{cname.rsplit('.', 1)[-1]}:{key}", ok,
+                   f"{cname.rsplit('.', 1)[-1]}.{meth}({key!r}) gives {outs}; it must answer with its own entry for exactly that key "
+                   f"({'present' if present else 'absent: NotImplementedError for constraints, None / unresolved mapping for hints and packages'})",
+                   file=cls_.file, line=fn_.node.lineno, function=fn_.qualname)
